@@ -991,9 +991,13 @@ func (a *nilAn) paramNonNilAtCallSites(fn *ssa.Function, p *ssa.Parameter, depth
 // paramFieldGuarded: at every call site of fn the argument for p is a load of a local struct
 // whose field was tested non-nil on every path to the call.
 func (a *nilAn) paramFieldGuarded(fn *ssa.Function, p *ssa.Parameter, field string) bool {
+	return a.paramFieldGuardedD(fn, p, field, 0)
+}
+
+func (a *nilAn) paramFieldGuardedD(fn *ssa.Function, p *ssa.Parameter, field string, depth int) bool {
 	idx := paramIndex(fn, p)
 	node := a.c.P.CallGraph().Nodes[fn]
-	if node == nil || idx < 0 || len(node.In) == 0 {
+	if node == nil || idx < 0 || len(node.In) == 0 || depth > 3 {
 		return false
 	}
 	for _, e := range node.In {
@@ -1001,16 +1005,41 @@ func (a *nilAn) paramFieldGuarded(fn *ssa.Function, p *ssa.Parameter, field stri
 		if idx >= len(args) {
 			return false
 		}
+		caller := e.Caller.Func
+		// the caller forwards its own parameter (possibly spilled to a local): its callers answer
+		if q := forwardedParam(args[idx], caller); q != nil {
+			if a.paramFieldGuardedD(caller, q, field, depth+1) {
+				continue
+			}
+		}
 		ld, ok := args[idx].(*ssa.UnOp)
 		if !ok {
 			return false
 		}
 		al, ok := ld.X.(*ssa.Alloc)
-		if !ok || !a.c.fieldGuarded(al, field, e.Caller.Func, e.Site.Block()) {
+		if !ok || !a.c.fieldGuarded(al, field, caller, e.Site.Block()) {
 			return false
 		}
 	}
 	return true
+}
+
+// forwardedParam: v is a parameter of fn, or a load of the local it was spilled to (never
+// reassigned).
+func forwardedParam(v ssa.Value, fn *ssa.Function) *ssa.Parameter {
+	if p, ok := v.(*ssa.Parameter); ok && p.Parent() == fn {
+		return p
+	}
+	if ld, ok := v.(*ssa.UnOp); ok && ld.Op == token.MUL {
+		if al, ok := ld.X.(*ssa.Alloc); ok {
+			if st := onlyStore(al); st != nil {
+				if p, ok := st.Val.(*ssa.Parameter); ok && p.Parent() == fn {
+					return p
+				}
+			}
+		}
+	}
+	return nil
 }
 
 // sliceElemsNonNil: the slice is a local built only by appends of values that are non-nil at
@@ -1030,7 +1059,51 @@ func (a *nilAn) sliceElemsNonNil(v ssa.Value, fn *ssa.Function, depth int, seen 
 			}
 		}
 		return true
+	case *ssa.Parameter:
+		// every call site passes a slice of non-nil elements
+		g := x.Parent()
+		idx := paramIndex(g, x)
+		n := 0
+		for _, h := range a.c.P.ModuleFunctions() {
+			for _, ci := range core.Calls(h) {
+				if ci.Common().StaticCallee() != g || idx < 0 || idx >= len(ci.Common().Args) {
+					continue
+				}
+				n++
+				if depth > 6 || !a.sliceElemsNonNil(ci.Common().Args[idx], h, depth+1, seen) {
+					return false
+				}
+			}
+		}
+		return n > 0
+	case *ssa.UnOp:
+		// a local slice variable: everything stored into it
+		if al, ok := x.X.(*ssa.Alloc); ok && x.Op == token.MUL && al.Referrers() != nil {
+			n := 0
+			for _, r := range *al.Referrers() {
+				if st, ok := r.(*ssa.Store); ok && st.Addr == ssa.Value(al) {
+					n++
+					if !a.sliceElemsNonNil(st.Val, fn, depth, seen) {
+						return false
+					}
+				}
+			}
+			return n > 0
+		}
+		return false
 	case *ssa.Call:
+		if sc := x.Call.StaticCallee(); sc != nil && a.c.P.InModule(sc) && len(sc.Blocks) > 0 {
+			// a module function that hands back a slice: everything it returns
+			if depth > 6 {
+				return false
+			}
+			for _, ret := range core.Returns(sc) {
+				if len(ret.Results) == 0 || !a.sliceElemsNonNil(ret.Results[0], sc, depth+1, seen) {
+					return false
+				}
+			}
+			return true
+		}
 		b, ok := x.Call.Value.(*ssa.Builtin)
 		if !ok || b.Name() != "append" || len(x.Call.Args) != 2 {
 			return false
@@ -1054,6 +1127,9 @@ func (a *nilAn) sliceElemsNonNil(v ssa.Value, fn *ssa.Function, depth int, seen 
 			for _, r2 := range *ia.Referrers() {
 				if st, ok := r2.(*ssa.Store); ok && st.Addr == ia {
 					if s, _, _ := a.status(st.Val, fn, st.Block(), depth+1); s != nsNonNil {
+						if p, ok := resolveLocal(st.Val).(*ssa.Parameter); ok && p.Parent() == fn && a.paramNonNilAtCallSites(fn, p, depth+1) {
+							continue
+						}
 						return false
 					}
 				}
